@@ -174,6 +174,21 @@ def net_request(A, directed, w, perm):
             f"{enc_rats([Fraction(float(x)) for x in w])}")
 
 
+def netw_request(A, M, W, perm):
+    q = lambda X: enc_ratmat([[Fraction(float(x)) for x in r] for r in X])   # noqa: E731
+    return f"netw {','.join(map(str, perm))} {enc_boolmat(A)} {q(M)} {q(W)}"
+
+
+def impl_netw(pn, Wp):
+    """the 5 sections of `netWeightedRelabelled`: the `key=` code path of the four motif clustering
+    coefficients (link attribute "c3" = cubes, so that the matrix of cubic roots is exact up to
+    rounding) and the static `weighted_local_clustering`"""
+    from pyunicorn.core import Network
+    return [attempt(pn.local_cyclemotif_clustering, "c3"), attempt(pn.local_midmotif_clustering, "c3"),
+            attempt(pn.local_inmotif_clustering, "c3"), attempt(pn.local_outmotif_clustering, "c3"),
+            attempt(Network.weighted_local_clustering, Wp) if Wp.any() else None]
+
+
 def impl_net(pnet, directed, connected):
     """the 26 sections of `netRelabelled`, `None` where the implementation's notion differs
     (undirected notions on directed networks, closeness on unconnected ones)"""
@@ -944,6 +959,12 @@ def run(ctx):
             # round 3: the C03 / C11 / C12 models on the renumbered input == permuted_copy
             reqs.append(net_request(A, directed, w, perm))
             meta.append(("net", gi, perm, impl_net(pnet, directed, connected)))
+            # round 5: link-weighted clustering (`key=` path; cubic roots 1/2, 1, 2, 3 of the attribute)
+            if A.sum() > 0:
+                M3 = np.where(W > 0, W, 0.0)
+                pn.set_link_attribute("c3", (M3 ** 3)[idx][:, idx])
+                reqs.append(netw_request(A, M3, W, perm))
+                meta.append(("netw", gi, perm, impl_netw(pn, Wp)))
             if not directed and n >= 3:
                 L1 = [i for i in range(n) if g0[i]]
                 L2 = [i for i in range(n) if not g0[i]]
@@ -987,7 +1008,7 @@ def run(ctx):
     timeseries_networks(ctx, reqs, meta)
     model = common.driver(ctx.pid, reqs)
     bad_rel, bad_eval, nvals = [], [], 0
-    TOL = {"net": 1e-9, "cross": 1e-9, "res": 1e-6, "geo": 1e-5, "rec": 0.0, "lattr": 0.0}
+    TOL = {"net": 1e-9, "netw": 1e-9, "cross": 1e-9, "res": 1e-6, "geo": 1e-5, "rec": 0.0, "lattr": 0.0}
     r3_vals = {k: 0 for k in TOL}
     r3_bad = {k: [] for k in TOL}
     for ans, (kind, gi, perm, impl) in zip(model, meta):
@@ -1025,6 +1046,8 @@ def run(ctx):
     names = {"net": "C03 model `Net` (degrees, motif clustering, matching index, BFS distances, path "
                     "measures, coreness peeling, n.s.i. degree / clustering / closeness, assortativity, "
                     "local vulnerability = node removal + BFS + efficiencies, cliquishness kernels)",
+             "netw": "C03 model `Net` / `NetRW` (link-weighted `key=` motif clustering, "
+                     "weighted_local_clustering with the renumbered link attribute)",
              "cross": "C11 model `Cross` (cross / internal measures with node lists renumbered by "
                       "`Relabel.nodes`)",
              "res": "C18 model `Circuit` (effective resistance via certified pseudo-inverses, closeness, "
